@@ -224,7 +224,7 @@ impl Model {
         let key = |m: &Model, v: usize| (m.dag.nodes[v].prio, m.dag.nodes[v].id);
         let mut avail: BTreeSet<((Prio, Id), usize)> = BTreeSet::new();
         let mut fin_in_avail: Option<usize> = None;
-        let mut add_avail = |avail: &mut BTreeSet<((Prio, Id), usize)>, fin: &mut Option<usize>, v: usize| {
+        let add_avail = |avail: &mut BTreeSet<((Prio, Id), usize)>, fin: &mut Option<usize>, v: usize| {
             if self.dag.nodes[v].prio == Prio::Finalize {
                 if let Some(o) = *fin {
                     return Err(BraidErr::ParallelFinalize(o, v));
